@@ -5,9 +5,19 @@ from z3 import Concat, Unit, Length, Int
 from pyvc.core import (Contract, PObj, PDerived, PRecSeq, Obj, RecSeqV, FnV, module_int_consts, toint, PInt, PConst,
                        Unsupported)
 
+TAGC = module_int_consts('pyasn1/type/tag.py')
 F = 'pyasn1/type/tag.py'
-TAGC = module_int_consts(F)
 NAMES = ('tagClass', 'tagFormat', 'tagId')
+# Tag.__eq__ compares self.__tagClassId = (tagClass, tagId): the primitive/constructed bit is not part of a tag's
+# identity.  Checked against the real class body on every import of this module.
+import ast as _ast
+from pyvc.core import parse_module as _pm
+_tagcls = [n for n in _pm(F).body if isinstance(n, _ast.ClassDef) and n.name == 'Tag'][0]
+_eq = [n for n in _tagcls.body if isinstance(n, _ast.FunctionDef) and n.name == '__eq__'][0]
+_init = [n for n in _tagcls.body if isinstance(n, _ast.FunctionDef) and n.name == '__init__'][0]
+assert _ast.unparse(_eq.body[-1]) == 'return self.__tagClassId == other', _ast.unparse(_eq)
+assert 'self.__tagClassId = (tagClass, tagId)' in _ast.unparse(_init), _ast.unparse(_init)
+TAG_EQ = (0, 2)
 
 
 def mk_tag(ex, tagClass, tagFormat, tagId):
@@ -18,21 +28,21 @@ def tagset_obj(tags):
     """TagSet over a symbolic sequence of tag records; __add__ appends, [:-1] drops the last (outermost) tag"""
     def add(ex, self, superTag):
         cols = [Concat(c, Unit(toint(superTag.fields[n]))) for c, n in zip(self.fields['__superTags'].cols, NAMES)]
-        return tagset_obj(RecSeqV(cols, names=NAMES))
+        return tagset_obj(RecSeqV(cols, names=NAMES, eq=TAG_EQ))
 
     def getslice(ex, self, lo, hi):
         if lo is not None or hi != -1:
             raise Unsupported('TagSet slice other than [:-1]')
         n = Length(self.fields['__superTags'].cols[0])
         cols = [z3.Extract(c, z3.IntVal(0), z3.If(n > 0, n - 1, z3.IntVal(0))) for c in self.fields['__superTags'].cols]
-        return tagset_obj(RecSeqV(cols, names=NAMES))
+        return tagset_obj(RecSeqV(cols, names=NAMES, eq=TAG_EQ))
     # TagSet.__init__: the base tag of a tagged type is its innermost tag, superTags[0]
     base = Obj('Tag', {n: c[0] for n, c in zip(NAMES, tags.cols)}, name='baseTag')
     return Obj('TagSet', {'__superTags': tags, 'superTags': tags, '__baseTag': base, 'baseTag': base},
                {'__add__': add, '__getslice__': getslice}, name='TagSet')
 
 
-PARAMS = dict(tags=PRecSeq(3, names=NAMES), self=PDerived(lambda ex, env: tagset_obj(env['tags'])),
+PARAMS = dict(tags=PRecSeq(3, names=NAMES, eq=TAG_EQ), self=PDerived(lambda ex, env: tagset_obj(env['tags'])),
               superTag=PObj('Tag', tagClass=PInt(), tagFormat=PInt(), tagId=PInt()))
 G = dict(TAGC, Tag=FnV(mk_tag, 'Tag'))
 N = 'len(tags)'
@@ -63,3 +73,80 @@ EXPLICIT = Contract(
     raises={'PyAsn1Error': 'superTag.tagClass == 0'})
 
 CONTRACTS = [IMPLICIT, EXPLICIT]
+
+
+# ---- TagSet.isSuperTagSetOf: prefix relation on the tag sequences (C13: accept/reject by tags) -----------------------
+def _other_tagset(ex, env):
+    tags = env['otherTags']
+
+    def getslice(ex2, self, lo, hi):
+        if lo is not None:
+            raise Unsupported('slice')
+        n = Length(tags.cols[0])
+        k = toint(hi)
+        cols = [z3.Extract(c, z3.IntVal(0), z3.If(k < n, k, n)) for c in tags.cols]
+        return RecSeqV(cols, names=NAMES, eq=TAG_EQ)
+    return Obj('TagSet', {'__superTags': tags, 'superTags': tags}, {'__getslice__': getslice, '__len__': lambda ex2, self: Length(tags.cols[0])},
+               name='tagSet')
+
+
+def _self_tagset(ex, env):
+    o = tagset_obj(env['tags'])
+    o.fields['__lenOfSuperTags'] = Length(env['tags'].cols[0])
+    return o
+
+
+SUPER = Contract(
+    id='type.tag::TagSet.isSuperTagSetOf', file=F, qual='TagSet.isSuperTagSetOf', properties=['C13', 'C15'],
+    params=dict(tags=PRecSeq(3, names=NAMES, eq=TAG_EQ), otherTags=PRecSeq(3, names=NAMES, eq=TAG_EQ), self=PDerived(_self_tagset),
+                tagSet=PDerived(_other_tagset)),
+    globals=G,
+    ensures=[('prefix-relation', 'result == (len(otherTags) >= len(tags) and '
+                                 'X.sub(otherTags.tagClass, 0, len(tags)) == tags.tagClass and '
+                                 'X.sub(otherTags.tagId, 0, len(tags)) == tags.tagId)')],
+    note='a tag set is a super tag set of another iff its tags are a prefix (innermost first) of the other\'s; tags '
+         'are compared by class and number, the primitive/constructed bit is not part of a tag (X.680 8.1)')
+
+# ---- TagMap (pyasn1/type/tagmap.py): lookup with positive, negative and default entries ------------------------------
+FM = 'pyasn1/type/tagmap.py'
+
+
+def _dict_model(name, value=None):
+    import z3 as _z
+    has = _z.Bool(name + '.has')
+
+    def contains(ex, self, key):
+        return has
+
+    def getitem(ex, self, key):
+        if ex.choose(has, name + '-has'):
+            return self.fields['value']
+        from pyvc.core import _Raise, ExcV
+        raise _Raise(ExcV('KeyError'))
+    return Obj('dict', {'value': value}, {'__contains__': contains, '__getitem__': getitem}, name=name)
+
+
+PRESENT_T = Obj('Asn1Type', {}, name='presentType')
+DEFAULT_T = Obj('Asn1Type', {}, name='defaultType')
+
+
+def _tagmap(ex, env):
+    return Obj('TagMap', {'__presentTypes': _dict_model('present', PRESENT_T), '__skipTypes': _dict_model('skip'),
+                          '__defaultType': DEFAULT_T if ex.choose(z3.Bool('hasDefault'), 'default') else None}, name='self')
+
+
+GM = {'present': z3.Bool('present.has'), 'skip': z3.Bool('skip.has'), 'hasDefault': z3.Bool('hasDefault'),
+      'presentType': PRESENT_T, 'defaultType': DEFAULT_T}
+TAGMAP_GET = Contract(
+    id='type.tagmap::TagMap.__getitem__', file=FM, qual='TagMap.__getitem__', properties=['C13', 'C15', 'C16'],
+    params=dict(self=PDerived(_tagmap), tagSet=PConst(Obj('TagSet', {}, name='tagSet'))), globals=GM,
+    ensures=[('positive-entry-wins', 'present ==> result is presentType'),
+             ('default-for-the-rest', '(not present) ==> result is defaultType')],
+    raises={'KeyError': 'not present and not hasDefault', 'PyAsn1Error': 'not present and hasDefault and skip'})
+TAGMAP_IN = Contract(
+    id='type.tagmap::TagMap.__contains__', file=FM, qual='TagMap.__contains__', properties=['C13', 'C15', 'C16'],
+    params=dict(self=PDerived(_tagmap), tagSet=PConst(Obj('TagSet', {}, name='tagSet'))), globals=GM,
+    ensures=[('exactly-when-lookup-succeeds', 'result == (present or (hasDefault and not skip))')],
+    note='`key in map` holds exactly when map[key] returns (agrees with TagMap.__getitem__#raises)')
+
+CONTRACTS = [IMPLICIT, EXPLICIT, SUPER, TAGMAP_GET, TAGMAP_IN]
